@@ -196,6 +196,8 @@ type shape struct {
 	slots  int
 	nested int // arrows that are not rule-level
 	family bool
+	fam    string   // family shapes: the name of their class
+	opts   []string // family shapes: table options every parser of this shape is generated with (nil = rotation)
 	fixed  []string // family shapes: the only labelings to use (nil = all canonical labelings)
 	// selection state
 	nextLabel int
@@ -292,6 +294,7 @@ func shapes(W int) []*shape {
 		}
 	}
 	out = append(out, familyShapes()...)
+	out = append(out, sameClassShapes()...)
 	for _, sh := range out {
 		finishShape(sh)
 	}
@@ -356,8 +359,61 @@ func familyShapes() []*shape {
 			for _, p := range c.TermSlots() {
 				lab = append(lab, *p)
 			}
-			out = append(out, &shape{g: c, weight: 9, fixed: []string{string(lab)}, family: true})
+			out = append(out, &shape{g: c, weight: 9, fixed: []string{string(lab)}, family: true, fam: famTwice})
 		}
+	}
+	return out
+}
+
+const (
+	famTwice     = "family:same-element-extracted-twice"
+	famSameClass = "family:same-class-rules-one-ends-in-empty-symbol"
+)
+
+// sameClassShapes: two rules of one nonterminal that the table minimizer may treat as one class
+// (same left-hand side, length and node type, through a nonterminal-level arrow) although only
+// one of them ends in a symbol that can be empty, so only that one has its range trimmed under
+// fixWhitespace. The general enumeration names every arrow differently and rotates the table
+// options, so this combination is listed explicitly and always generated with minimizeDFA.
+func sameClassShapes() []*shape {
+	tok := func(ch byte) *extsem.Expr { return &extsem.Expr{Kind: extsem.KTok, Ch: ch} }
+	opt := func(e *extsem.Expr) *extsem.Expr { return &extsem.Expr{Kind: extsem.KOpt, Sub: e} }
+	star := func(e *extsem.Expr) *extsem.Expr { return &extsem.Expr{Kind: extsem.KList, Sub: e} }
+	ref := func(nt int) *extsem.Expr { return &extsem.Expr{Kind: extsem.KRef, NT: nt} }
+	alt := func(parts ...*extsem.Expr) *extsem.Alt { return &extsem.Alt{Parts: parts} }
+	// Y : c | %empty ;   (an optional part `Y?` would be expanded in place and a list `c*` keeps a
+	// shift in its state: only an explicitly nullable nonterminal leaves a pure reduce state)
+	yc := func() *extsem.Nonterm { return &extsem.Nonterm{Name: "Y", Alts: []*extsem.Alt{alt(tok('c')), alt()}} }
+	_, _ = opt, star
+	type v struct {
+		g    *extsem.Grammar
+		opts []string
+	}
+	min := []string{"minimizeDFA = true"}
+	minOpt := []string{"minimizeDFA = true", "optimizeTables = true"}
+	sN := func(alts ...*extsem.Alt) *extsem.Nonterm {
+		return &extsem.Nonterm{Name: "S", Default: &extsem.Arrow{}, Alts: alts}
+	}
+	vs := []v{
+		// S -> N : b b | a Y ;  Y : c | %empty ;
+		{&extsem.Grammar{NTs: []*extsem.Nonterm{sN(alt(tok('b'), tok('b')), alt(tok('a'), ref(1))), yc()}}, min},
+		// S -> N : a Y | b b ;  Y : c | %empty ;
+		{&extsem.Grammar{NTs: []*extsem.Nonterm{sN(alt(tok('a'), ref(1)), alt(tok('b'), tok('b'))), yc()}}, min},
+		// S -> N : a | Y ;  Y : b | %empty ;   (length 1)
+		{&extsem.Grammar{NTs: []*extsem.Nonterm{sN(alt(tok('a')), alt(ref(1))), {Name: "Y", Alts: []*extsem.Alt{alt(tok('b')), alt()}}}}, min},
+		// S -> N : a b b | a a Y ;  Y : c | %empty ;   (length 3)
+		{&extsem.Grammar{NTs: []*extsem.Nonterm{sN(alt(tok('a'), tok('b'), tok('b')), alt(tok('a'), tok('a'), ref(1))), yc()}}, min},
+		{&extsem.Grammar{NTs: []*extsem.Nonterm{sN(alt(tok('b'), tok('b')), alt(tok('a'), ref(1))), yc()}}, minOpt},
+		{&extsem.Grammar{NTs: []*extsem.Nonterm{sN(alt(tok('a'), ref(1)), alt(tok('b'), tok('b'))), yc()}}, minOpt},
+	}
+	var out []*shape
+	for _, x := range vs {
+		c := x.g.Clone()
+		var lab []byte
+		for _, p := range c.TermSlots() {
+			lab = append(lab, *p)
+		}
+		out = append(out, &shape{g: c, weight: 9, fixed: []string{string(lab)}, family: true, fam: famSameClass, opts: x.opts})
 	}
 	return out
 }
@@ -536,7 +592,7 @@ func finishShape(sh *shape) {
 	}
 	if sh.family {
 		// only its own class: the general classes stay ordered by weight
-		feats = map[string]bool{"family:same-element-extracted-twice": true}
+		feats = map[string]bool{sh.fam: true}
 	}
 	for f := range feats {
 		sh.feats = append(sh.feats, f)
